@@ -1,7 +1,7 @@
 SPECIFICATION DirectedSpec
 CONSTANTS
   MaxLen = 4
-  Directed = TRUE
+  Directed = 1
   Emit = TRUE
 INVARIANT Inv
 INVARIANT EmitReplay
